@@ -402,6 +402,11 @@ class Assembler:
                 mm = re.match(r"(\s+)(?!pub\b)([a-z_][A-Za-z0-9_]*\s*:)", l)
                 if mm and o[0] == "src":
                     lines.pairs[k] = (l[: mm.end(1)] + "pub " + l[mm.end(1):], o)
+                    continue
+                # one-field tuple struct `struct Name(Type);`
+                mm = re.match(r"(\s*(?:pub(?:\([a-z]+\))?\s+)?struct\s+\w+(?:<[^>]*>)?\()(?!pub\b)([^,()]+\);)\s*$", l)
+                if mm and o[0] == "src":
+                    lines.pairs[k] = (mm.group(1) + "pub " + mm.group(2), o)
             log.append({"rule": "D4c", "before": "(private fields)", "after": "pub fields"})
         if "+pub" in extra_attr:
             # visibility widened for the verifier's module rules only (rule D4c; no effect on behaviour)
